@@ -1338,6 +1338,166 @@ out:
 }
 
 /*
+ * Kit epilogue: one vnacal_new_t that refers to many parameter handles (its
+ * handle table grows 8 -> 16 -> 32 -> 64), entered so that handles which
+ * share a bucket after each growth are registered before it.  Every handle
+ * is then used a second time: the unknown must still be the one unknown
+ * (its two slightly inconsistent readings average out), a handle the user
+ * deleted in between must keep working there, and the solved unknown must
+ * read back.
+ */
+#define NKIT 28
+static void kit_epilogue(ctx_t *c)
+{
+    double f1 = 1.0e9;
+    int kit[NKIT], order[NKIT], used[NKIT];
+    cx kv[NKIT];
+    const cx base = -0.35 + 0.25 * I, truth_v = base + DELTA;
+    int s0 = vnacal_make_scalar_parameter(c->vcp, base);
+    int u = s0 >= 0 ? vnacal_make_unknown_parameter(c->vcp, s0) : -1;
+    vnacal_new_t *vnp = NULL;
+    int nk = 0;
+
+    for (int k = 0; k < NKIT; ++k)
+	kit[k] = -1;
+    if (u < 0) {
+	vf_fail(c->r, "probe:setup", "kit epilogue: parameters");
+	goto out;
+    }
+    for (int k = 0; k < NKIT; ++k) {
+	kv[k] = 0.8 * cexp(I * (0.37 * k + 0.1)) * (0.3 + 0.7 * (k % 5) / 4.0);
+	kit[k] = vnacal_make_scalar_parameter(c->vcp, kv[k]);
+	if (kit[k] < 0) {
+	    vf_fail(c->r, "probe:setup", "kit epilogue: scalar %d", k);
+	    goto out;
+	}
+    }
+    /* entry order: handles congruent to the unknown's modulo 32, 16, 8
+       first (they end up in its bucket), then the rest */
+    memset(used, 0, sizeof(used));
+    for (int mod = 32; mod >= 1; mod = mod == 8 ? 1 : mod / 2)
+	for (int k = 0; k < NKIT; ++k)
+	    if (!used[k] && (kit[k] - u) % mod == 0) {
+		used[k] = 1;
+		order[nk++] = k;
+	    }
+    vnp = vnacal_new_alloc(c->vcp, VNACAL_T8, 1, 1, 1);
+    if (vnp == NULL || vnacal_new_set_frequency_vector(vnp, &f1) != 0 ||
+	    vnacal_new_set_p_tolerance(vnp, 1e-9) != 0 ||
+	    vnacal_new_set_et_tolerance(vnp, 1e-9) != 0) {
+	vf_fail(c->r, "probe:setup", "kit epilogue: vnacal_new_alloc");
+	goto out;
+    }
+    {
+	/*
+	 * The unknown goes in first; after the 8th, 9th, 16th, 17th, ...
+	 * handle (just before and after each growth of the table) it is
+	 * used again with a reading alternately 0.01 above and below, and
+	 * the first handles - the low members of shared buckets - are
+	 * deleted by the user and used again.
+	 */
+	int nu = 0, registered = 1, deleted[NKIT];
+	cx mv;
+	cx *mp[1] = { &mv };
+	memset(deleted, 0, sizeof(deleted));
+	for (int i = -1; i < nk; ++i) {
+	    int again = 0;
+	    if (i >= 0) {
+		int k = order[i];
+		int before = c->elog.nonwarn;
+		mv = meas(0, 0, kv[k]);
+		int rc = vnacal_new_add_single_reflect_m(vnp, mp, 1, 1,
+			kit[k], 1);
+		++c->r->transitions;
+		expect_ok(c, "vnacal_new_add_single_reflect_m", rc, before);
+		if (rc != 0)
+		    goto out;
+		++registered;
+		for (int g = 8; g <= 64; g *= 2)
+		    if (registered == g - 1 || registered == g ||
+			    registered == g + 1)
+			again = 1;
+	    } else {
+		again = 1;
+	    }
+	    if (i == nk - 1 && (nu & 1))
+		again = 1;		/* as many readings above as below */
+	    if (!again)
+		continue;
+	    {
+		int before = c->elog.nonwarn;
+		mv = meas(0, 0, truth_v + ((nu & 1) ? -0.01 : 0.01));
+		int rc = vnacal_new_add_single_reflect_m(vnp, mp, 1, 1, u, 1);
+		++c->r->transitions;
+		++nu;
+		expect_ok(c, "vnacal_new_add_single_reflect_m", rc, before);
+		if (rc != 0)
+		    goto out;
+	    }
+	    /* handles the user lets go of while the vnacal_new_t holds them
+	       keep working there */
+	    for (int j = 0; j <= i && j < 4; ++j) {
+		int k = order[j];
+		if (!deleted[k]) {
+		    (void)vnacal_delete_parameter(c->vcp, kit[k]);
+		    deleted[k] = 1;
+		}
+		mv = meas(0, 0, kv[k]);
+		int rc = vnacal_new_add_single_reflect_m(vnp, mp, 1, 1,
+			kit[k], 1);
+		++c->r->transitions;
+		if (rc != 0) {
+		    vf_fail(c->r, "rejected-valid:vnacal_new_add_single_"
+			    "reflect_m", "kit epilogue: handle %d, deleted by "
+			    "the user while this vnacal_new_t holds it, is "
+			    "refused after %d handles were registered: %s",
+			    kit[k], registered, c->elog.count > 0 ?
+			    c->elog.msg[(c->elog.count - 1) % VF_ERRLOG_MAX]
+			    : "");
+		    goto out;
+		}
+	    }
+	    vf_errlog_reset(&c->elog);
+	}
+	for (int k = 0; k < NKIT; ++k)
+	    if (deleted[k])
+		kit[k] = -1;
+    }
+    {
+	int before = c->elog.nonwarn;
+	int rc = vnacal_new_solve(vnp);
+	++c->r->transitions;
+	expect_ok(c, "vnacal_new_solve", rc, before);
+	if (rc != 0)
+	    goto out;
+	cx v = vnacal_get_parameter_value(c->vcp, u, f1);
+	if (vf_verbose)
+	    vf_note("kit epilogue: unknown handle %d, first handles %d %d %d "
+		    "%d, solved %.6g%+.6gj truth %.6g%+.6gj", u, kit[order[0]],
+		    kit[order[1]], kit[order[2]], kit[order[3]], creal(v),
+		    cimag(v), creal(truth_v), cimag(truth_v));
+	if (!(cabs(v - truth_v) <= 1e-3))
+	    vf_fail(c->r, "wrong:vnacal_get_parameter_value", "kit "
+		    "epilogue: the unknown measured alternately (+0.01 and -0.01 "
+		    "off) among %d known standards solves to %.6g%+.6gj, "
+		    "expected %.6g%+.6gj within 1e-3 (handle %d of %d "
+		    "handles in one vnacal_new_t)", nk, creal(v),
+		    cimag(v), creal(truth_v), cimag(truth_v), u, nk + 1);
+    }
+out:
+    if (vnp != NULL)
+	vnacal_new_free(vnp);
+    for (int k = 0; k < NKIT; ++k)
+	if (kit[k] >= 0)
+	    (void)vnacal_delete_parameter(c->vcp, kit[k]);
+    if (u >= 0)
+	(void)vnacal_delete_parameter(c->vcp, u);
+    if (s0 >= 0)
+	(void)vnacal_delete_parameter(c->vcp, s0);
+    vf_errlog_reset(&c->elog);
+}
+
+/*
  * Third epilogue: the calibration table far beyond the BFS depth.  A fresh
  * solved 1x1 calibration is added under 12 new names (the table grows
  * 1 -> 8 -> 16), every other one is deleted, names are replaced and new
@@ -1626,6 +1786,17 @@ static void run_hist(int tier, const int *ops, int n, vf_result *r)
     if (r->status == VF_OK && n > 0) {
 	vf_errlog_reset(&c.elog);
 	regrid_epilogue(&c);
+    }
+    /* the kit epilogue depends on the state only through the parameter
+       table and what holds it: a history ending in an operation that
+       touches neither repeats its parent's run */
+    if (r->status == VF_OK && n > 0) {
+	int k = optab[ops[n - 1]].kind;
+	if (k != OP_SOLVE && k != OP_ADDCAL && k != OP_DELCAL &&
+		k != OP_PROPSET) {
+	    vf_errlog_reset(&c.elog);
+	    kit_epilogue(&c);
+	}
     }
     if (r->status == VF_OK && n > 0) {
 	vf_errlog_reset(&c.elog);
